@@ -730,7 +730,8 @@ func (i *Interpreter) callCallable(fn interface{}, args []interface{}) (interfac
 	case *LambdaClosure:
 		return i.callLambdaClosure(f, args)
 	case Function:
-		fnEnv := NewChildEnvironment(NewEnvironment())
+		// like a direct call, the callback sees the module's functions and constants
+		fnEnv := NewChildEnvironment(i.globalEnv)
 		for idx, param := range f.Params {
 			if idx < len(args) {
 				fnEnv.Define(param.Name, args[idx])
